@@ -2,7 +2,7 @@
 Require Extraction.
 Require Import ExtrOcamlBasic.
 From Coq Require Import ZArith NArith.
-From Astisub Require Import Kit.Base Kit.Str Kit.Float64 Kit.Scan Kit.Html Model.Ops Model.Dur Model.Lin Model.Srt Model.Files Model.Vtt Model.Conv Model.ConvOps Model.Plain Model.PlainOps Model.TtxRow Model.Ttx Model.TtxSpec Model.Ssa Kit.Float64x Kit.Xml Model.Ttml Kit.XmlParse Kit.Utf8 Model.Stl Model.PlainSsa Model.PlainStl Kit.IOW Model.StlIO Model.PlainTtml Model.TtmlOpt.
+From Astisub Require Import Kit.Base Kit.Str Kit.Float64 Kit.Scan Kit.Html Model.Ops Model.Dur Model.Lin Model.Srt Model.Files Model.Vtt Model.Conv Model.ConvOps Model.Plain Model.PlainOps Model.Cli Model.TtxRow Model.Ttx Model.TtxSpec Model.Ssa Kit.Float64x Kit.Xml Model.Ttml Kit.XmlParse Kit.Utf8 Model.Stl Model.PlainSsa Model.PlainStl Kit.IOW Model.StlIO Model.PlainTtml Model.TtmlOpt.
 Extraction "model.ml"
   Z.add Z.mul Z.opp Z.div Z.modulo Z.of_N Z.to_N N.add N.mul
   order merge add_dur force_duration fragment unfragment optimize remove_styling item_text
@@ -15,7 +15,7 @@ Extraction "model.ml"
   read_vtt write_vtt parse_text_vtt vtt_line_simple
   convert_srt_vtt convert_vtt_srt
   convert_srt_ops_srt convert_srt_ops_vtt
-  convert_plain srt_enc srt_dec vtt_enc vtt_dec ptrunc convert_plain_ops ops_plain
+  convert_plain srt_enc srt_dec vtt_enc vtt_dec ptrunc convert_plain_ops ops_plain cli_run cli_ops
   convert_plain srt_enc srt_dec vtt_enc vtt_dec ptrunc ssa_enc ssa_dec
   ttx_feed ttx_parse_row
   mux_ok mux_ok_auto cues_of events pes_ok pes_units tmin tmax zero_or
